@@ -36,6 +36,7 @@ def run(rep: Report, tier: str) -> None:
 	rule_c(rep, idx)
 	rule_d(rep, idx)
 	rule_e(rep, idx)
+	rule_f(rep, idx)
 
 
 def rule_a(rep: Report, idx: SourceIndex) -> None:
@@ -270,3 +271,46 @@ def rule_e(rep: Report, idx: SourceIndex) -> None:
 			else:
 				ok = ok or ('uplayer' in a0 or 'shift(-1)' in a0)
 		r.check(bool(gb) and ok, f'{name}:entry-index', f.where, f'Nodes.{name} no longer lists entries with __entries.group_by over {"via" if name == "children" else "the AST parent path EntryPath(via).shift(-1)"}', src[:160])
+
+
+def rule_f(rep: Report, idx: SourceIndex) -> None:
+	"""a raw path element keeps its `[index]` suffix whenever the tag repeats among siblings; comparing it with plain tag names only works for the un-indexed form.
+	Readers must go through the de-indexing accessors (tag / last_tag / parent_tag / first_tag / de_identify())."""
+	from vlib.grammar import GrammarModel
+	r = rep.rule('C10/raw-elements-vs-tags', 'a raw element of an entry path (EntryPath.elements[i] without de_identify()) is never compared with plain tag names that can repeat among siblings', floor=1)
+	gm = GrammarModel()
+	repeatable: set[str] = set()
+	for tag, prods in gm.productions().items():
+		for p_ in prods:
+			seen: dict[str, int] = {}
+			for s_ in p_:
+				for t in s_.tags:
+					seen[t] = seen.get(t, 0) + (2 if s_.mult == 'many' else 1)
+			repeatable |= {t for t, k in seen.items() if k > 1}
+	files = idx.glob('rogw/tranp/syntax/node/definition/*.py') + ['rogw/tranp/syntax/node/node.py', 'rogw/tranp/syntax/node/query.py', 'rogw/tranp/semantics/finder.py']
+	n_raw = 0
+	for rel in files:
+		m = idx.mod(rel)
+		for q, f in m.functions.items():
+			if '#' in q:
+				continue
+			for n in walk_no_nested(f.node):
+				if not (isinstance(n, ast.Compare) and len(n.ops) == 1 and isinstance(n.ops[0], (ast.Eq, ast.NotEq, ast.In, ast.NotIn))):
+					continue
+				sides = [n.left, n.comparators[0]]
+				raw = [x for x in sides if isinstance(x, ast.Subscript) and isinstance(x.value, ast.Attribute) and x.value.attr == 'elements' and 'de_identify' not in unparse(x.value) and not isinstance(x.slice, ast.Slice)]
+				if not raw:
+					continue
+				n_raw += 1
+				rep.consulted(rel)
+				other = sides[1] if raw[0] is sides[0] else sides[0]
+				consts = [const_str(other)] if const_str(other) is not None else ([const_str(e) for e in other.elts] if isinstance(other, (ast.List, ast.Tuple)) else [])
+				bad = sorted(c for c in consts if c in repeatable)
+				r.check(not bad, f'{rel}:{q}:{unparse(n)[:60]}', (rel, n.lineno), f'`{unparse(n)[:100]}` compares a raw path element with {bad}; these tags repeat among siblings and are then written `{bad[0] if bad else ""}[i]`, so the test fails exactly for repeated entries (e.g. the second operator of a chained comparison)', unparse(n)[:120])
+	# the de-indexing accessors themselves
+	pm = idx.mod(PATH)
+	tag_prop = idx.mod('rogw/tranp/syntax/node/node.py').func('Node.tag')
+	r.check('last_tag' in unparse(tag_prop.node), 'Node.tag-is-deindexed', tag_prop.where, 'Node.tag no longer returns the de-indexed last tag of the path')
+	lt = pm.func('EntryPath.last_tag')
+	r.check('self.last[0]' in unparse(lt.node), 'last_tag-strips-index', lt.where, 'EntryPath.last_tag no longer strips the [index] suffix (via __break_tag)')
+	rep.extra_coverage['raw_element_comparisons'] = n_raw
